@@ -213,6 +213,12 @@ Theorem C19_link_true_post : forall m,
 Proof. exact IfaceProofs.link_true_post. Qed.
 Print Assumptions C19_link_true_post.
 
+(** The ownership hypothesis is needed (state reachable through Model::replaceUnits, see design_notes/C19.md). *)
+Example C19_link_needs_ownership :
+  ~ units_owned m_stolen /\ snd (link_model m_stolen) = true /\ has_unlinked (fst (link_model m_stolen)) = true.
+Proof. exact IfaceProofs.link_needs_ownership. Qed.
+Print Assumptions C19_link_needs_ownership.
+
 (** Identity: what each variable holds afterwards, case by case, and its contribution to the return value. *)
 Theorem C19_link_identity : forall m,
   model_occs (fst (link_model m)) = map (link_occ m) (model_occs m) /\
